@@ -22,7 +22,10 @@ authentication is mandatory and both quinn configs are built with these verifier
 only from the SPKI of a certificate (plus serde value decoding), Connection.peer_id only from the
 certificate the same quinn connection presented; raw wire headers carry no extensions or PeerId; the
 inbound handler and the outbound RPC path insert Connection::peer_id() as the PeerId extension after
-decoding, so nothing in a message can influence it.
+decoding, so nothing in a message can influence it; and the extension maps form a closed world: library
+code only ever inserts into them (PeerId only at those verified sites, with the connection's id), never
+extends/removes/clears/clones them, and the `extensions` fields are mutably reachable only through the two
+accessor methods - nothing can overwrite the authenticated id after it was attached.
 """
 TRUSTED = ["rustls/webpki/ring/x509-parser cryptography and DER parsing", "quinn::Connection::peer_identity returns the chain rustls verified",
            "rustls rejects an empty client certificate chain when client auth is mandatory"]
@@ -326,3 +329,47 @@ def run(cx):
             b = cx.body(p)
             gets = [c for c in b.calls() if name_matches(c.fn, "Extensions::get")]
             ob.require(len(gets) == 1 and gets[0].ga == ["anemo::types::peer_id::PeerId"], f"{p}/accessor", f"{p} does not read Extensions::get::<PeerId>", b.path)
+
+    with cx.ob("C01.10", "R-CALLERS", "closed world of extension writes: library code only ever *inserts* into request/response extensions, PeerId only at the three verified sites; no extend/remove/clear/replace that could overwrite the authenticated id") as ob:
+        EXT = "http::extensions::Extensions::"
+        READ_ONLY = ("get", "new", "is_empty", "len")
+        PEERID_SITES = ("anemo::network::peer::Peer::do_rpc", "anemo::network::request_handler::BiStreamRequestHandler::do_handle",
+                        "<anemo::network::peer::Peer as tower_service::Service")
+        n = 0
+        for p, b in prog.bodies.items():
+            if b.crate not in ("anemo", "anemo_tower"):
+                continue
+            for c in b.calls():
+                if b.is_cleanup(c.bb) or not c.callee.startswith(EXT):
+                    continue
+                m = c.callee[len(EXT):]
+                if m in READ_ONLY:
+                    continue
+                n += 1
+                if m != "insert":
+                    ob.fail("refuted", f"ext-write/{owner_path(prog, b)}/{m}", f"{p} calls Extensions::{m}: extension entries (incl. the authenticated PeerId) can be overwritten or removed wholesale",
+                            p, b.loc(c.bb))
+                    continue
+                ty = c.ga[0] if c.ga else "?"
+                if ty == "anemo::types::peer_id::PeerId":
+                    ob.require(p.startswith(PEERID_SITES), f"ext-write/{owner_path(prog, b)}/insert-PeerId", f"{p} inserts a PeerId extension outside the three verified sites", p, b.loc(c.bb))
+                    v = strip_identity(arg_origin(c, 1, Origins(b)))
+                    ob.require(v[0] == "call" and name_matches(v[1], ("anemo::connection::Connection::peer_id", "anemo::network::peer::Peer::peer_id")),
+                               f"ext-write/{owner_path(prog, b)}/insert-PeerId-value", f"{p} inserts PeerId extension value {show(v)[:100]} (not the connection's authenticated id)", p, b.loc(c.bb))
+                elif "::" not in ty:
+                    # a value type chosen by whoever instantiates the helper: fine in user-invoked builders/middleware
+                    # (the application's own doing), never on the transport path itself
+                    transport = p.startswith(("anemo::network::", "<anemo::network::"))
+                    ob.require(not transport, f"ext-write/{owner_path(prog, b)}/insert-generic",
+                               f"{p} (transport path) inserts an extension of generic type {ty} (could be PeerId)", p, b.loc(c.bb))
+                else:
+                    ob.count(1)
+        ob.floor(n, 14, "extension writes inspected")
+        # the extension maps themselves are reachable mutably only through the two accessor methods
+        for adt, acc in (("anemo::types::request::RequestHeader", "anemo::types::request::Request::extensions_mut"),
+                         ("anemo::types::response::ResponseHeader", "anemo::types::response::Response::extensions_mut")):
+            check_field_writers(ob, prog, adt, "extensions", [acc], kinds=("mutref", "write"))
+        # Clone of an Extensions map is the other way to transplant a PeerId: never in library code
+        cl = [(p, b.loc(c.bb)) for p, b in prog.bodies.items() if b.crate in ("anemo", "anemo_tower")
+              for c in b.calls() if not b.is_cleanup(c.bb) and name_matches(c.fn, "Clone::clone") and c.ga and c.ga[0] == "http::extensions::Extensions"]
+        ob.require(not cl, "ext-clone", f"Extensions map cloned at {cl[:3]}", cl[0][0] if cl else "")
